@@ -5,7 +5,7 @@
 From Coq Require Import ZArith List Bool.
 From Abacus.Common Require Import Arr Par.
 From Abacus.C09 Require Import Model Lib TwoPass.
-From Abacus.C10 Require Import Gen Model Proofs.
+From Abacus.C10 Require Import Gen Model Proofs Linspace.
 Import ListNotations.
 Local Open Scope Z_scope.
 
@@ -108,3 +108,27 @@ Theorem searchsorted_parallel_correct : forall a b,
   searchsorted_parallel a b = Ok (map (fun v => Some (searchsorted a v)) b).
 Proof. exact searchsorted_parallel_lemma. Qed.
 Print Assumptions searchsorted_parallel_correct.
+
+(* the block table the kernels build, np.rint(np.linspace(0, H, Nthread + 1)), in exact arithmetic (entry t =
+   round-half-even(t H / Nthread)) meets the block-table hypothesis of the theorems above for EVERY table length H >= 0 and
+   EVERY thread count >= 1 — more threads than hosts and the empty table included *)
+Theorem rint_linspace_blocks_good : forall H Nthread, 0 <= H -> 1 <= Nthread ->
+  good_hstart Nthread (rint_linspace H Nthread) H.
+Proof. exact rint_linspace_good_lemma. Qed.
+Print Assumptions rint_linspace_blocks_good.
+
+(* ... hence, with that table, one kernel call is the filter for every thread count: no hypothesis left on the blocks *)
+Theorem two_pass_with_linspace_blocks : forall (A R : Type) (code : A -> Z) (fill : Z -> A -> R) Nthread hosts,
+  1 <= Nthread ->
+  exists traces,
+    two_pass A R code fill Nthread (rint_linspace (len hosts) Nthread) hosts =
+    Ok (map Some (map code hosts),
+        (map Some (map (fill 1) (filter (fun h => code h =? 1) hosts)),
+         map Some (map (fill 2) (filter (fun h => code h =? 2) hosts)),
+         map Some (map (fill 3) (filter (fun h => code h =? 3) hosts))),
+        traces).
+Proof.
+  intros A R code fill Nthread hosts Hn.
+  apply two_pass_is_filter. apply rint_linspace_good_lemma; [apply len_nonneg|exact Hn].
+Qed.
+Print Assumptions two_pass_with_linspace_blocks.
